@@ -976,9 +976,8 @@ def replay(payload):
         a, b = payload['a'], payload['b']
         found = judge_pair(env, a, b)
         pa, pb = env.point(a['text']), env.point(b['text'])
-        l1, e1, g1 = (_apply('lt', pa, pb) is True,
-                      _apply('eq', pa, pb) is True,
-                      _apply('gt', pa, pb) is True)
+        l1, e1 = (_apply('lt', pa, pb) is True,
+                  _apply('eq', pa, pb) is True)
         l2 = _apply('lt', pb, pa) is True
         if l1 + e1 + l2 != 1:
             found.append(bad(
